@@ -11,7 +11,7 @@ MANIFEST = dict(
          "emissions plus the deliveries made during each call (steps_account) - nothing is handed to a hidden goroutine or queue; that this model applies is the regenerated fact "
          "asyncEmit=false for every operator except the listed hand-off/time-driven ones, decided by the kernel on every run (table_ok, async_rows). "
          "Tie: the per-call delivery counts of every catalogue operator and of random chains are compared with the model after each individual Next returns. "
-         + C08_handoff.TEXT
+         + C08_handoff.TEXT +
          " Subjects inside synchronous pipelines (kind=nextret): a Next into a unicast subject, a GroupBy group or a multicast subject returns only after the value was delivered, with the consumer blocked in the backlog replay or in another producer's delivery; premise: the subjects' lock skeletons regenerated from subject_*.go (RoProps/C10 subjects_wellLocked, unicast_delivers_outside_lock).",
     technique="Lean 4 proof (invariant over the run: out = start + sum of per-call deliveries) + kernel-decided fact table regenerated from source + differential correspondence of per-call counts",
     ref='5/C08')
